@@ -16,7 +16,10 @@
    callback and coroutine interface), Recovery, NoLookaheadOverrun.                             *)
 EXTENDS DvbStream
 
-CONSTANTS HL,          \* PES_HEADER_LOOKAHEAD (48)
+CONSTANTS PesResync,   \* TRUE: the PES receiver drops the frame in progress whenever it meets a malformed packet
+                       \* or bytes belonging to no packet (as the TS receiver does and as the comments in
+                       \* demux_pes_packet() announce); FALSE: as coded - it keeps the lines collected so far
+          HL,          \* PES_HEADER_LOOKAHEAD (48)
           TSH,         \* TS_HEADER_LOOKAHEAD (10): TS header + start code, stream_id, PES_packet_length
           MaxLines     \* capacity of the sliced buffer of one frame (64)
 
@@ -127,6 +130,7 @@ ValidHdr(d, X, p) ==
   ELSE [ok |-> ~d.nf, d |-> d]
 
 PLen(X, p) == At(X, p + 4) * 256 + At(X, p + 5)
+Drop(d) == IF PesResync THEN [d EXCEPT !.nf = TRUE] ELSE d
 StartCode(X, p) == At(X, p) = 0 /\ At(X, p + 1) = 0 /\ At(X, p + 2) = 1
 
 -----------------------------------------------------------------------------
@@ -134,12 +138,14 @@ StartCode(X, p) == At(X, p) = 0 /\ At(X, p + 1) = 0 /\ At(X, p + 2) = 1
 RECURSIVE RefPes(_, _, _, _)
 RefPes(X, n, pos, d) ==
   IF pos + HL > n THEN d                          \* a header is examined when HL bytes of it are there
-  ELSE IF ~StartCode(X, pos) \/ At(X, pos + 3) < 188 THEN RefPes(X, n, pos + 1, d)
-  ELSE IF At(X, pos + 3) # 189 \/ PLen(X, pos) < MinPL THEN RefPes(X, n, pos + 6 + PLen(X, pos), d)
+  ELSE IF ~StartCode(X, pos) \/ At(X, pos + 3) < 188 THEN RefPes(X, n, pos + 1, Drop(d))
+  ELSE IF At(X, pos + 3) # 189 THEN RefPes(X, n, pos + 6 + PLen(X, pos), d)         \* packet of another stream
+  ELSE IF PLen(X, pos) < MinPL THEN RefPes(X, n, pos + 6 + PLen(X, pos), Drop(d))
   ELSE LET v == ValidHdr(d, X, pos)  e == pos + 6 + PLen(X, pos) IN
-       IF ~v.ok THEN RefPes(X, n, e, d)
+       IF ~v.ok THEN RefPes(X, n, e, Drop(d))
        ELSE IF e > n THEN v.d
-       ELSE RefPes(X, n, e, PacketFrame([v.d EXCEPT !.fs.ndu = 0], X, pos + HB, e).d)
+       ELSE LET r == PacketFrame([v.d EXCEPT !.fs.ndu = 0], X, pos + HB, e) IN
+            RefPes(X, n, e, IF r.r = "err" THEN Drop(r.d) ELSE r.d)
 
 Frames(X, n) == RefPes(X, n, 0, D0(TRUE)).out
 
@@ -195,16 +201,18 @@ StepPes(X, w) ==
   IF s.look > HL THEN      \* the data units of a packet are available in [dst, dst + look)
       LET r == PacketFrame([s.d EXCEPT !.fs.ndu = 0], X, dst, dst + s.look) IN
       IF r.r = "cb" THEN [s EXCEPT !.d = r.d, !.ret = TRUE]
-      ELSE [s EXCEPT !.d = r.d, !.skip = s.look, !.look = HL]
+      ELSE [s EXCEPT !.d = IF r.r = "err" THEN Drop(r.d) ELSE r.d, !.skip = s.look, !.look = HL]
   ELSE
       LET c == Scan(X, dst, w.se)
           rel == c.p - dst
           hi == IF c.k = "none" THEN c.p - 1 + 3 ELSE IF c.k = "other" THEN c.p + 5 ELSE c.p + HB - 1
-          s1 == [s EXCEPT !.bad = @ \/ hi >= w.rend \/ dst > w.se]
+          s0 == [s EXCEPT !.bad = @ \/ hi >= w.rend \/ dst > w.se]
+          s1 == IF rel > 0 THEN [s0 EXCEPT !.d = Drop(@)] ELSE s0
       IN IF c.k = "none" THEN [s1 EXCEPT !.skip = rel]
-         ELSE IF c.k = "other" \/ PLen(X, c.p) < MinPL THEN [s1 EXCEPT !.skip = rel + 6 + PLen(X, c.p)]
-         ELSE LET v == ValidHdr(s.d, X, c.p) IN
-              IF ~v.ok THEN [s1 EXCEPT !.skip = rel + 6 + PLen(X, c.p)]
+         ELSE IF c.k = "other" THEN [s1 EXCEPT !.skip = rel + 6 + PLen(X, c.p)]
+         ELSE IF PLen(X, c.p) < MinPL THEN [s1 EXCEPT !.d = Drop(@), !.skip = rel + 6 + PLen(X, c.p)]
+         ELSE LET v == ValidHdr(s1.d, X, c.p) IN
+              IF ~v.ok THEN [s1 EXCEPT !.d = Drop(@), !.skip = rel + 6 + PLen(X, c.p)]
               ELSE [s1 EXCEPT !.d = v.d, !.skip = rel + HB, !.look = PLen(X, c.p) + 6 - HB]
 
 RECURSIVE RunPes(_, _)
